@@ -2,6 +2,7 @@
 from .. import absint, sm83, terms as T
 from ..terms import C, S, O, AV, fmt, bit_provenance
 from ..invariants import FieldInvariants
+from ..affine import equal_mod
 from .common import *
 from .c03 import syms_of
 
@@ -34,46 +35,71 @@ def run(ctx, chk):
     inv.track(OWNER, 'timer_clock_mask')
     inv.track(OWNER, 'enabled_mask')
     ip = absint.Interp(facts, sym_facts=inv.sym_facts, trust_asserts=('overflow',))
-    # ---- rule 1
+    # ---- rule 1 (+ the TAC-write half of rule 4), value level: set_timer_control as a function of (TAC value, divider,
+    #      previous mask / enable), compared bit-precisely with the protocol - tables, shifts, matches all accepted
+    from .. import bvproof, valfn
+    from ..bdd import BDD, BV, TermBV, Unsupported
     flags = S(8, 'flags')
     st = ip.new_state()
     tm = ip.arg_object(st, 'timer')
-    ipo = absint.Interp(facts, sym_facts=inv.sym_facts, trust_asserts=('overflow',), opaque=[TM + 'increment_counter'])
+    ipo = absint.Interp(facts, sym_facts=inv.sym_facts, trust_asserts=('overflow',), opaque=[TM + 'increment_counter'],
+                        precise=True)
     rs = ipo.run(TM + 'set_timer_control', [tm, flags], st)
-    seen_sel = {}
-    seen_en = {}
-    for r in rs:
-        if r.status != 'ok':
-            chk.fail('C13.1', 'diverge', 'set_timer_control can diverge (%s)' % (r.detail,), file, None)
-            continue
-        env = r.state.env
-        sel = env.const_of(O(8, 'and', flags, C(8, 3)))
-        en = env.av(flags)
-        for e in r.state.events:
-            if e[0] == 'store' and e[2][-1][1] == 'timer_clock_mask' and e[3][0] == 'c':
-                if sel is not None:
-                    seen_sel.setdefault(sel, set()).add(e[3][2])
-                else:
-                    # "otherwise" arm: selector not 1,2,3
-                    for v in range(4):
-                        if env.possible(O(8, 'and', flags, C(8, 3)), v):
-                            seen_sel.setdefault(v, set()).add(e[3][2])
-            if e[0] == 'store' and e[2][-1][1] == 'enabled_mask' and e[3][0] == 'c':
-                bit = 1 if en.m1 & 4 else (0 if en.m0 & 4 else None)
-                seen_en.setdefault(bit, set()).add(e[3][2])
-    for sel, period in sorted(sm83.TIMER_PERIODS.items()):
-        masks = seen_sel.get(sel, set())
-        want = period >> 1
-        key = 'tac&3=%d' % sel
-        if masks == {want}:
-            chk.ok('C13.1', key, sample={'TAC&3': sel, 'watched_bit_mask': hex(want), 'period': period})
+    cc0 = fld('cycle_count', 32)
+    om, oe = fld('timer_clock_mask', 32), fld('enabled_mask', 32)
+    tac = {'sel': {}, 'enable': None, 'fire': None}
+    try:
+        m = BDD()
+        conv = TermBV(m, bvproof._known(st.env))
+        vf, vcc = conv(flags), conv(cc0)
+        table = BV.const(m, 32, sm83.TIMER_PERIODS[0] >> 1)
+        for sel_ in (1, 2, 3):
+            hit = m.AND(vf.b[0] if sel_ & 1 else m.NOT(vf.b[0]), vf.b[1] if sel_ & 2 else m.NOT(vf.b[1]))
+            table = BV.mux(m, hit, BV.const(m, 32, sm83.TIMER_PERIODS[sel_] >> 1), table)
+        en_ref = vf.b[2]
+        new_det_ref = m.AND(en_ref, (vcc & table).nonzero())
+        old_det = (vcc & conv(om) & conv(oe)).nonzero()
+        fire_c = nofire_c = 0
+        d_mask = d_det = 0
+        for r in rs:
+            if r.status != 'ok':
+                chk.fail('C13.1', 'diverge', 'set_timer_control can diverge (%s)' % (r.detail,), file, None)
+                continue
+            _, _, K = bvproof.setup(r.state.env, m, conv)
+            stm = [e[3] for e in r.state.events if e[0] == 'store' and e[2][-1][1] == 'timer_clock_mask']
+            ste = [e[3] for e in r.state.events if e[0] == 'store' and e[2][-1][1] == 'enabled_mask']
+            nm = conv(stm[-1]) if stm else conv(om)
+            ne_ = conv(ste[-1]) if ste else conv(oe)
+            nm = nm.zext(32) if len(nm) < 32 else nm.trunc(32)
+            ne_ = ne_.zext(32) if len(ne_) < 32 else ne_.trunc(32)
+            d_mask = m.OR(d_mask, m.AND(K, nm.diff(table)))
+            d_det = m.OR(d_det, m.AND(K, m.XOR((vcc & nm & ne_).nonzero(), new_det_ref)))
+            if any(e[0] == 'call' and e[1] == TM + 'increment_counter' for e in r.state.events):
+                fire_c = m.OR(fire_c, K)
+            else:
+                nofire_c = m.OR(nofire_c, K)
+        for sel_, period in sorted(sm83.TIMER_PERIODS.items()):
+            cls = m.AND(vf.b[0] if sel_ & 1 else m.NOT(vf.b[0]), vf.b[1] if sel_ & 2 else m.NOT(vf.b[1]))
+            bad = m.AND(d_mask, cls)
+            key = 'tac&3=%d' % sel_
+            if bad == 0:
+                chk.ok('C13.1', key, sample={'TAC&3': sel_, 'watched_bit_mask': hex(period >> 1), 'period': period})
+            else:
+                chk.fail('C13.1', key, 'TAC & 3 = %d does not select divider bit mask %#x (period %d clocks): e.g. TAC = %#x'
+                         % (sel_, period >> 1, period, m.witness(bad).get('flags', 0)), file, None)
+        if d_det == 0:
+            chk.ok('C13.1', 'enable', sample={'edge detector input after the write': 'TAC bit 2 set and selected divider bit set'})
         else:
-            chk.fail('C13.1', key, 'TAC & 3 = %d selects mask %s, expected %#x (period %d clocks)'
-                     % (sel, sorted(map(hex, masks)), want, period), file, None)
-    if seen_en.get(1) and all(v != 0 for v in seen_en[1]) and seen_en.get(0) == {0}:
-        chk.ok('C13.1', 'enable', sample={'TAC&4 set': sorted(map(hex, seen_en[1])), 'clear': 0})
-    else:
-        chk.fail('C13.1', 'enable', 'enable mask by TAC bit 2: %s' % {str(k): sorted(v) for k, v in seen_en.items()}, file, None)
+            w = m.witness(d_det)
+            chk.fail('C13.1', 'enable', 'after writing TAC = %#x with divider %#x the edge detector input (divider & mask & '
+                     'enable) is not "TAC bit 2 and the selected divider bit"' % (w.get('flags', 0), w.get(cc0[2], 0)), file, None)
+        ref_fire = m.AND(old_det, m.NOT(new_det_ref))
+        tac['both'] = m.AND(fire_c, nofire_c)
+        tac['diff'] = m.AND(m.OR(fire_c, nofire_c), m.XOR(fire_c, ref_fire))
+        tac['m'] = m
+        tac['nfire'] = fire_c
+    except Unsupported as e:
+        chk.error('C13.1: set_timer_control is outside the bit-vector fragment: %s' % e.why)
     # ---- rule 2
     st = ip.new_state()
     tm = ip.arg_object(st, 'timer')
@@ -153,136 +179,143 @@ def run(ctx, chk):
     if not body:
         chk.error('Timer::run_cycles: no loop iteration found (anchor lost)')
         return chk.finish('anchors missing')
-    mask = fld('timer_clock_mask', 32)
+    # one iteration of the catch-up loop as a function of (divider value X at the head of the iteration, watched mask):
+    # divider' = X + 1 and TIMA is incremented exactly when the watched bit goes 1 -> 0.  Decided bit-precisely.
     edge_ok = True
     why = ''
-    guard_vars = set()
     uniform = True
-    for r in body:
-        env = r.state.env
-        calls = [e for e in r.state.events if e[0] == 'call' and e[1] == TM + 'increment_counter']
-        stores = [e for e in r.state.events if e[0] == 'store' and e[2][-1][1] == 'cycle_count']
-        decs = r.state.decisions
-        # the loop counter: symbol tested first with "> 0"
-        cnt_syms = [s_ for d in decs for s_ in syms_of(d[0]) if s_[2].startswith('loopvar:')]
-        guard_vars |= set(cnt_syms)
-        X = None
-        for s_ in (s2 for d in decs for s2 in syms_of(d[0])):
-            if s_[3] and s_[3][0] == 'field' and s_[3][2] == 'cycle_count':
-                X = s_
-        if X is None or len(stores) != 1 or stores[0][3] != O(32, 'add', X, C(32, 1)):
-            edge_ok, why = False, 'an iteration does not advance the divider by exactly 1 (%s)' % [fmt(s[3]) for s in stores]
-            continue
-        prev = O(32, 'and', X, mask)
-        new = O(32, 'and', O(32, 'add', X, C(32, 1)), mask)
-        pv = env.const_of(O(1, 'ne', prev, C(32, 0)))
-        nv = env.const_of(O(1, 'eq', new, C(32, 0)))
-        fired = bool(calls)
-        should = (pv == 1 and nv == 1)
-        decided = (pv is not None) and (pv == 0 or nv is not None)
-        if not decided:
-            edge_ok, why = False, 'an iteration is not decided by (old & mask != 0, new & mask == 0)'
-        elif fired != should:
-            edge_ok, why = False, 'TIMA incremented=%s on a path where old bit set=%s, new bit clear=%s' % (fired, pv, nv)
-        # uniformity: the remaining-count variable must not flow into stores or call arguments
-        for e in r.state.events:
-            vals = []
-            if e[0] == 'store':
-                vals.append(e[3])
-            if e[0] == 'call':
-                vals += list(e[2])
-            for v in vals:
-                if any(s_ in cnt_syms or s_ == clocks for s_ in syms_of(v)):
-                    uniform = False
+    guard_vars = set()
+    try:
+        m2 = BDD()
+        conv2 = TermBV(m2)
+        Xs, Ms = S(32, 'X'), S(32, 'MASK')
+        vX, vM = conv2(Xs), conv2(Ms)
+        fire2 = nofire2 = 0
+        for r in body:
+            env = r.state.env
+            calls = [e for e in r.state.events if e[0] == 'call' and e[1] == TM + 'increment_counter']
+            stores = [e for e in r.state.events if e[0] == 'store' and e[2][-1][1] == 'cycle_count']
+            decs = r.state.decisions
+            cnt_syms = [s_ for d in decs for s_ in syms_of(d[0]) if s_[2].startswith('loopvar:') and
+                        not (s_[3] and s_[3][0] == 'field')]
+            guard_vars |= set(cnt_syms)
+            fs = valfn.field_syms([d[0] for d in decs] + [e[3] for e in stores])
+            X, Mk = fs.get('cycle_count'), fs.get('timer_clock_mask')
+            if X is None or len(stores) != 1 or not equal_mod(stores[0][3], O(32, 'add', X, C(32, 1)), env, 32):
+                edge_ok, why = False, 'an iteration does not advance the divider by exactly 1 (%s)' % [fmt(s_[3]) for s_ in stores]
+                continue
+            ren = {X: Xs}
+            if Mk is not None:
+                ren[Mk] = Ms
+            _, _, K = bvproof.setup(env, m2, conv2, ren, only={'X', 'MASK'})
+            if calls:
+                fire2 = m2.OR(fire2, K)
+            else:
+                nofire2 = m2.OR(nofire2, K)
+            for e in r.state.events:
+                vals = []
+                if e[0] == 'store':
+                    vals.append(e[3])
+                if e[0] == 'call':
+                    vals += list(e[2])
+                for v in vals:
+                    if any(s_ in cnt_syms or s_ == clocks for s_ in syms_of(v)):
+                        uniform = False
+        if edge_ok:
+            ref2 = m2.AND((vX & vM).nonzero(), m2.NOT(((vX + 1) & vM).nonzero()))
+            if m2.AND(fire2, nofire2) != 0:
+                edge_ok, why = False, 'whether an iteration increments TIMA is not a function of (divider, watched mask)'
+            else:
+                dd = m2.AND(m2.OR(fire2, nofire2), m2.XOR(fire2, ref2))
+                if dd != 0:
+                    w = m2.witness(dd)
+                    edge_ok = False
+                    why = ('divider %#x -> %#x with watched mask %#x: TIMA is %sincremented, but the watched bit %s'
+                           % (w.get('X', 0), (w.get('X', 0) + 1) & 0xffffffff, w.get('MASK', 0),
+                              '' if _holds(m2, fire2, w) else 'not ',
+                              'does not fall' if _holds(m2, fire2, w) else 'falls'))
+    except Unsupported as e:
+        chk.error('C13.4: loop step outside the bit-vector fragment: %s' % e.why)
+        edge_ok = False
+        why = 'undecided'
     if edge_ok:
         chk.ok('C13.4', 'loop-step', sample={'step': 'cycle_count += 1', 'fires': '(old & mask) != 0 && (new & mask) == 0',
                                              'iterations_paths': len(body)})
     else:
         chk.fail('C13.4', 'loop-step', 'catch-up loop: %s' % why, file, None)
-    # TAC write edge
-    st = ipo.new_state()
-    tm = ipo.arg_object(st, 'timer')
-    rs2 = ipo.run(TM + 'set_timer_control', [tm, flags], st)
-    tac_ok = True
-    tac_why = ''
-    cc0 = fld('cycle_count', 32)
-    old = O(32, 'and', O(32, 'and', cc0, fld('timer_clock_mask', 32)), fld('enabled_mask', 32))
-    nfire = 0
-    for r in rs2:
-        env = r.state.env
-        calls = [e for e in r.state.events if e[0] == 'call']
-        oldv = env.const_of(O(1, 'ne', old, C(32, 0)))
-        # new masked bit: cycle_count & stored mask & stored enable
-        stm = [e[3] for e in r.state.events if e[0] == 'store' and e[2][-1][1] == 'timer_clock_mask']
-        ste = [e[3] for e in r.state.events if e[0] == 'store' and e[2][-1][1] == 'enabled_mask']
-        if not stm or not ste:
-            tac_ok, tac_why = False, 'set_timer_control path without mask/enable stores'
-            continue
-        newt = O(32, 'and', O(32, 'and', cc0, stm[-1]), ste[-1])
-        newv = env.const_of(O(1, 'eq', newt, C(32, 0)))
-        fired = bool(calls)
-        if fired:
-            nfire += 1
-        if fired and not (oldv == 1 and newv == 1):
-            tac_ok, tac_why = False, 'TAC write increments TIMA although old bit=%s new bit clear=%s' % (oldv, newv)
-        if not fired and oldv == 1 and newv == 1:
-            tac_ok, tac_why = False, 'TAC write misses a falling edge'
-        if not fired and (oldv is None or (oldv == 1 and newv is None)):
-            tac_ok, tac_why = False, 'TAC write path not decided by the old/new selected bit'
-    if tac_ok and nfire:
-        chk.ok('C13.4', 'tac-write', sample={'fires': 'old(cc & mask & enable) != 0 && new(cc & mask\' & enable\') == 0',
-                                             'firing_paths': nfire})
-    else:
-        chk.fail('C13.4', 'tac-write', tac_why or 'no TAC-write path increments TIMA', file, None)
+    # TAC write edge (computed with rule 1)
+    if 'm' in tac:
+        mt = tac['m']
+        if tac['both'] != 0:
+            chk.error('C13.4: whether a TAC write increments TIMA is not a function of the state and the value written')
+        elif tac['diff'] != 0 or tac['nfire'] == 0:
+            w = mt.witness(tac['diff']) if tac['diff'] != 0 else {}
+            chk.fail('C13.4', 'tac-write', 'TAC write %#x with divider %#x, old mask %#x, old enable %#x: TIMA is %s although the '
+                     'detector input %s' % (w.get('flags', 0), w.get(cc0[2], 0), w.get(om[2], 0), w.get(oe[2], 0),
+                                            'incremented' if tac['diff'] != 0 and _holds(mt, tac['nfire'], w) else 'not incremented',
+                                            'does not fall' if tac['diff'] != 0 and _holds(mt, tac['nfire'], w) else 'falls')
+                     if tac['diff'] != 0 else 'no TAC write ever increments TIMA', file, None)
+        else:
+            chk.ok('C13.4', 'tac-write', sample={'fires': 'old(cc & mask & enable) != 0 && new(cc & mask\' & enable\') == 0'})
     chk.ok('C13.4', 'count') if edge_ok else None
     # ---- rule 5
     if uniform:
         chk.ok('C13.5', 'uniform-step', sample={'remaining-count variable flows into': 'guard and decrement only'})
     else:
         chk.fail('C13.5', 'uniform-step', 'the loop step depends on the remaining count / batch size', file, None)
-    # accumulator: returned flag after the loop is the loop-carried accumulator (OR-combined inside)
-    acc_ok = False
-    for r in exits:
-        if any('enabled_mask' in fmt(d[0]) and r.state.env.const_of(d[0]) == 0 for d in r.state.decisions):
-            if r.ret is not None and r.ret[0] == 's' and r.ret[2].startswith('loopvar:'):
-                acc_ok = True
-    ors = prog.fns.get('<devices::interrupts::InterruptFlag as std::ops::BitOrAssign>::bitor_assign')
+    # exits of run_cycles: the slow path (timer enabled: the loop ran) and the fast path (timer disabled)
+    def is_fast(r):
+        a_ = r.state.env.av(oe)
+        return a_.is_const() and a_.lo == 0
+
+    def is_slow(r):
+        return not r.state.env.possible(oe, 0)
+    slow = [r for r in exits if is_slow(r)]
+    fast = [r for r in exits if is_fast(r)]
+    other = [r for r in exits if not is_slow(r) and not is_fast(r)]
+    # accumulator: what the slow path returns is the loop-carried accumulator, OR-combined in the body
+    acc_ok = bool(slow) and all(r.ret is not None and ((r.ret[0] == 's' and r.ret[2].startswith('loopvar:')) or
+                                                        (r.ret[0] in ('hav', 'agg') and 'loopvar:' in str(r.ret)))
+                                for r in slow)
     body_calls = set()
     fn = prog.fns[TM + 'run_cycles']
     loops = iph.loops_of(TM + 'run_cycles')
     for head, blocks in loops.items():
-        for b in blocks:
-            t = fn['blocks'][b]['term']
+        for b_ in blocks:
+            t = fn['blocks'][b_]['term']
             if t['k'] == 'call':
                 body_calls.add(t['resolved'] or t['callee'])
-    if acc_ok and any('bitor_assign' in c for c in body_calls):
+    ored = any('bitor_assign' in c or c.endswith('::bitor') for c in body_calls)
+    if acc_ok and ored and not other:
         chk.ok('C13.5', 'accumulator', sample={'requests': 'OR-accumulated across iterations and returned'})
     else:
-        chk.fail('C13.5', 'accumulator', 'timer requests are not OR-accumulated over the loop and returned', file, None)
+        chk.fail('C13.5', 'accumulator', 'timer requests are not OR-accumulated over the loop and returned'
+                 + (' (an exit of run_cycles is neither the enabled nor the disabled case)' if other else ''), file, None)
+    # the divider is reduced to 16 bits at every exit, which commutes with the step because the watched masks lie below 2^16
     mav = inv.get(OWNER, 'timer_clock_mask')
-    post = []
-    for r in exits:
-        if any('enabled_mask' in fmt(d[0]) and r.state.env.const_of(d[0]) == 0 for d in r.state.decisions):
-            ss = [e for e in r.state.events if e[0] == 'store' and e[2][-1][1] == 'cycle_count']
-            if ss:
-                post.append(ss[-1])
-    final_mask_ok = all(e[3][0] == 'o' and e[3][2] == 'and' and e[3][4] == C(32, 0xffff) for e in post) and post
-    if mav is not None and mav.hi <= 0xffff and final_mask_ok:
-        chk.ok('C13.5', 'final-mask', sample={'timer_clock_mask range': [mav.lo, mav.hi], 'post-loop': 'cycle_count &= 0xffff'})
+    red_ok = bool(slow)
+    for r in slow:
+        ss = [e for e in r.state.events if e[0] == 'store' and e[2][-1][1] == 'cycle_count']
+        fs = valfn.field_syms([e[3] for e in ss])
+        Xl = fs.get('cycle_count')
+        if not ss or Xl is None or r.state.env.av(ss[-1][3]).hi > 0xffff or not equal_mod(ss[-1][3], Xl, r.state.env, 16):
+            red_ok = False
+    if mav is not None and mav.hi <= 0xffff and red_ok:
+        chk.ok('C13.5', 'final-mask', sample={'timer_clock_mask range': [mav.lo, mav.hi], 'post-loop': 'cycle_count reduced mod 2^16'})
     else:
-        chk.fail('C13.5', 'final-mask', 'the post-loop mask does not commute with the step (mask range %s)' % mav, file, None)
+        chk.fail('C13.5', 'final-mask', 'the post-loop reduction of the divider does not commute with the step (watched mask '
+                 'range %s, divider reduced to 16 bits at the enabled exit: %s)' % (mav, red_ok), file, None)
     # fast path
-    fast = [r for r in exits if any('enabled_mask' in fmt(d[0]) and r.state.env.const_of(d[0]) == 1 for d in r.state.decisions)]
     fok = bool(fast)
     for r in fast:
         st_ = [e for e in r.state.events if e[0] == 'store']
         if any(e[2][-1][1] == 'counter' for e in st_) or any(e[0] == 'call' for e in r.state.events):
             fok = False
         last = [e for e in st_ if e[2][-1][1] == 'cycle_count']
-        want = O(32, 'and', O(32, 'add', cc0, O(32, 'trunc', clocks)), C(32, 0xffff))
-        if not last or last[-1][3] != want:
+        want = O(32, 'add', cc0, O(32, 'trunc', clocks))
+        if not last or r.state.env.av(last[-1][3]).hi > 0xffff or not equal_mod(last[-1][3], want, r.state.env, 16):
             fok = False
-        if r.ret is None or r.ret[0] != 'agg' or r.ret[2][0] != C(8, 0):
+        if r.ret is None or r.ret[0] != 'agg' or r.state.env.const_of(r.ret[2][0]) != 0:
             fok = False
     if fok:
         chk.ok('C13.5', 'disabled-fast-path', sample={'taken iff': 'enabled_mask == 0', 'effect': 'cycle_count = (cc + n) & 0xffff'})
@@ -296,3 +329,12 @@ def run(ctx, chk):
                       'provenance, overflow paths of increment_counter, and one symbolic iteration of the catch-up loop '
                       '(field-sensitive loop havoc) whose increment and firing condition are decided from the path '
                       'conditions; dataflow of the remaining-count variable for uniformity.', exhaustive=True)
+
+
+def _holds(m, f, w):
+    n = f
+    while n > 1:
+        v, lo, hi = m.node[n]
+        sym, bit = m.names[v]
+        n = hi if (w.get(sym, 0) >> bit) & 1 else lo
+    return bool(n)
